@@ -10,7 +10,10 @@ Rump.tla   fetcher (SCAN page, DUMP round, PTTL round, push) -> keyChan -> write
      arbitrary cursors and empty pages, keys vanishing before DUMP / before PTTL, thresholds below and above
      payload sizes, key_exists none / rewrite, target.db, db / key filters, key-file scans with line counts
      around multiples of the batch size) are installed in two model Redis servers; the REAL CmdRump.Main()
-     runs over TCP; the final target keyspace and the way the run ended are judged by TLC (RumpTrace.tla)."""
+     runs over TCP; the final target keyspace and the way the run ended are judged by TLC (RumpTrace.tla).
+ Several sources at once (one rumper goroutine per source address, all into the one target): RumpFan.tla composes the
+     executors' contracts (each goroutine works on its own source, the command ends when all have ended, the target
+     holds the union, nothing twice); a third of the scenarios migrate 2-3 sources in one run."""
 import concurrent.futures
 import json
 import os
@@ -53,7 +56,10 @@ def gen_case(rnd, cid, seed):
     elif r < 0.3:
         cfg["fkey_black"] = ["b", "a1"]
     keys, dbl, kid = [], [], 0
-    for d in dbs:
+    # several sources are migrated at once into the one target (one rumper goroutine per source); a key file names the same keys
+    # for every source, so that mode stays with one
+    nsrc = 1 if cfg["key_file"] else rnd.choice([1, 1, 2, 3])
+    for s, d in [(s, d) for s in range(nsrc) for d in (dbs if s == 0 else rnd.sample([0, 1, 2, 5, 15], rnd.choice([1, 2])))]:
         n = rnd.choice([1, 2, 3, 4, 6, 9]) if not cfg["key_file"] else rnd.choice([1, 2, 3, 4, 5, 6, 10])
         ids = []
         for _ in range(n):
@@ -63,7 +69,7 @@ def gen_case(rnd, cid, seed):
             if any(k["name"] == name and (k["db"] == d or cfg["tdb"] != -1) for k in keys):
                 name = "%s_%d" % (name, kid)
             kind = rnd.choice(["string", "list", "set", "zset", "hash"])
-            keys.append({"id": kid, "db": d, "name": name, "kind": kind, "n": rnd.choice([1, 2, 5, 12]), "elem": rnd.choice([3, 10, 30]),
+            keys.append({"id": kid, "src": s, "db": d, "name": name, "kind": kind, "n": rnd.choice([1, 2, 5, 12]), "elem": rnd.choice([3, 10, 30]),
                          "ttl": rnd.choice([0, 0, rnd.randint(1000, 10 ** 7)]), "vanish": rnd.choice(["never"] * 6 + ["dump", "pttl"])})
             ids.append(kid)
         unscanned = []
@@ -83,9 +89,9 @@ def gen_case(rnd, cid, seed):
             pages.append([])                                        # the last page is empty
         if rnd.random() < 0.2:
             pages.insert(0, [])                                     # the first page is empty
-        dbl.append({"db": d, "pages": pages})
+        dbl.append({"src": s, "db": d, "pages": pages})
         for k in keys:
-            if k["db"] == d:
+            if k["db"] == d and k["src"] == s:
                 k["scanned"] = k["id"] not in unscanned and db_passes(d, cfg["fdb_white"], cfg["fdb_black"])
                 k["passes"] = key_passes(k["name"], cfg["fkey_white"], cfg["fkey_black"])
     if cfg["key_file"] and rnd.random() < 0.5:
@@ -99,7 +105,7 @@ def gen_case(rnd, cid, seed):
                 pre.append({"db": k["db"] if cfg["tdb"] == -1 else cfg["tdb"], "name": k["name"]})
     if rnd.random() < 0.3:
         pre.append({"db": rnd.choice([0, 3, 7]), "name": "unrelated"})
-    return {"id": cid, "cfg": cfg, "keys": keys, "dbs": dbl, "pre": pre, "seed": seed * 100003 + cid}
+    return {"id": cid, "sources": nsrc, "cfg": cfg, "keys": keys, "dbs": dbl, "pre": pre, "seed": seed * 100003 + cid}
 
 
 def run(tier, seed, replay=None):
@@ -111,6 +117,13 @@ def run(tier, seed, replay=None):
     with vlib.Scratch(PID) as sc:
         vlib.stage_specs(sc)
         mcs = []
+        # several sources: the composition of the executors' contracts (RumpFan.tla), and its deviation switch
+        mf = vlib.tlc(sc, "MCRumpFan", "RumpFan.cfg", workers=4, timeout=600)
+        if mf.rc != 0:
+            raise Infra("RumpFan model check failed (rc=%s, %s)\n%s" % (mf.rc, mf.violated, mf.out[-2000:]))
+        mcs.append(mf)
+        if not vlib.tlc(sc, "MCRumpFan", "RumpFan_dev.cfg", workers=4, timeout=600).violated:
+            raise Infra("RumpFan.tla: goroutines sharing one rumper variable no longer violate the composition - the model is vacuous")
         for cfgname in ("Rump.cfg", "Rump_b.cfg") + (("Rump_t.cfg",) if thorough else ()):
             mc = vlib.tlc(sc, "MCRump", cfgname, workers=8, timeout=3000)
             if mc.rc != 0:
@@ -131,6 +144,21 @@ def run(tier, seed, replay=None):
                                             {"id": 3, "db": 1, "name": "c", "kind": "string", "n": 1, "elem": 5, "ttl": 0, "vanish": "never", "scanned": True, "passes": True},
                                             {"id": 4, "db": 1, "name": "d", "kind": "string", "n": 1, "elem": 5, "ttl": 5000, "vanish": "never", "scanned": True, "passes": True}],
                                    "dbs": [{"db": 0, "pages": [[1]]}, {"db": 1, "pages": [[2, 3], [4]]}]})
+        # three sources at once, the same database numbers and key kinds in each, names distinct per source
+        if not replay:
+            ks, dl, kid = [], [], 0
+            for s in range(3):
+                for d in (0, 1):
+                    ids = []
+                    for j in range(3):
+                        kid += 1
+                        ks.append({"id": kid, "src": s, "db": d, "name": "m%d_%d_%d" % (s, d, j), "kind": ["string", "list", "hash"][j], "n": 3, "elem": 8, "ttl": 7000 * j,
+                                   "vanish": "never", "scanned": True, "passes": True})
+                        ids.append(kid)
+                    dl.append({"src": s, "db": d, "pages": [ids[:2], ids[2:]]})
+            allcases[1 % nproc].insert(0, {"id": 999200, "sources": 3, "seed": seed, "pre": [], "keys": ks, "dbs": dl,
+                                          "cfg": {"scan_key_number": 2, "big_threshold": 10 ** 9, "key_exists": "none", "tdb": -1, "fdb_white": [], "fdb_black": [], "fkey_white": [],
+                                                  "fkey_black": [], "key_file": False, "target_version": "5.0.7"}})
         # a rate limit well below the key count and a lull at the source: the run still has to end with every key copied
         if not replay:
             for j, (qps, nk) in enumerate([(4, 14)] + ([(3, 20), (5, 11)] if thorough else [])):
